@@ -22,8 +22,7 @@ Proof. exact feed_split. Qed.
 Print Assumptions C13_split_law.
 
 (* every segmentation into non-empty reads in which no proper prefix of the reads already completes the
-   message gives the state that one-piece delivery gives (any number of cuts, byte-at-a-time included);
-   covers also bodies that never complete (responses read until close) *)
+   message gives the state that one-piece delivery gives (any number of cuts, byte-at-a-time included) *)
 Theorem C13_segmentation : forall kind_resp parse_fl parse_hd cs s,
   cs <> [] -> Forall nonempty cs ->
   (forall p q, cs = p ++ q -> p <> [] -> q <> [] ->
@@ -32,17 +31,28 @@ Theorem C13_segmentation : forall kind_resp parse_fl parse_hd cs s,
 Proof. exact run_segmentation. Qed.
 Print Assumptions C13_segmentation.
 
-(* well-formed messages (first line L, header block H with >= 1 field, body B sent with Content-Length,
-   chunked — any chunk-size lines with extensions, optional trailers — or, for requests, absent):
-   EVERY segmentation of the bytes of the message ends in the same completed state, carrying L, H and the
-   decoded body *)
-Theorem C13_message : forall kind_resp parse_fl parse_hd L H i204 clen chunked,
-  wf_head parse_fl parse_hd L H i204 clen chunked ->
-  forall B body, wf_body kind_resp clen chunked B body ->
-  forall cs, Forall nonempty cs -> concat cs = msg_bytes L H B ->
-  run kind_resp parse_fl parse_hd (PFirst []) cs = PDone L H body.
+(* well-formed messages: first line L; header section HS = either a block blk of header lines followed by
+   CRLF CRLF, or just CRLF (no header field at all, hl = true); body B sent with Content-Length, chunked
+   (any chunk-size lines with extensions, optional trailers), absent for a request, absent for a 204 response
+   without fields.  EVERY segmentation of the bytes of the message ends in the same completed state, carrying
+   L, blk and the decoded body. *)
+Theorem C13_message : forall kind_resp parse_fl parse_hd L HS blk i204 clen chunked hl,
+  wf_head parse_fl parse_hd L HS blk i204 clen chunked hl ->
+  forall B body, wf_body kind_resp i204 hl clen chunked B body ->
+  forall cs, Forall nonempty cs -> concat cs = msg_bytes L HS B ->
+  run kind_resp parse_fl parse_hd (PFirst []) cs = PDone L blk body.
 Proof. exact message_segmentation. Qed.
 Print Assumptions C13_message.
+
+(* obsolete line folding: the framing condition on a header block (wf_hsec's "only the final CRLFCRLF, not
+   starting with CRLF") holds for ANY non-empty list of non-empty lines without CR / LF inside joined by CRLF;
+   a continuation line is such a line (it starts with SP / HT).  So C13_message covers every cut inside a
+   folded header, including between the CRLF and the SP. *)
+Theorem C13_folded_headers : forall ls, ls <> [] -> Forall clean_line ls ->
+  split_on CRLF2 (join_lines ls ++ CRLF2) = Some (join_lines ls, []) /\
+  is_prefix CRLF (join_lines ls ++ CRLF2) = false.
+Proof. exact header_block_wf. Qed.
+Print Assumptions C13_folded_headers.
 
 (* server (HTTP._on_read): keep-alive sequence of well-formed requests, each cut in any way (no read spans
    two requests): exactly one request event per request, with that request's first line, headers and body;
@@ -54,8 +64,8 @@ Theorem C13_server_keepalive : forall parse_fl parse_hd ms css,
 Proof. exact server_keepalive. Qed.
 Print Assumptions C13_server_keepalive.
 
-(* client (protocols.http.HTTP._on_client_read, used by web.client.Client): same for responses with
-   Content-Length or chunked bodies *)
+(* client (protocols.http.HTTP._on_client_read, used by web.client.Client): same for responses that are
+   complete by themselves (Content-Length, chunked, 204 without fields) *)
 Theorem C13_client_keepalive : forall parse_fl parse_hd ms css,
   Forall (wf_message true parse_fl parse_hd) ms ->
   Forall2 (fun m cs => Forall nonempty cs /\ concat cs = message_bytes m) ms css ->
@@ -63,25 +73,51 @@ Theorem C13_client_keepalive : forall parse_fl parse_hd ms css,
 Proof. exact client_keepalive. Qed.
 Print Assumptions C13_client_keepalive.
 
-(* The full statement "for every byte string, every two segmentations agree" is FALSE for the client side:
-   a response without header fields (known finding C13-headerless-response).  The theorems above exclude it
-   through [wf_head] (H is followed by CRLFCRLF and does not start with CRLF) resp. through [splittable]. *)
-Theorem C13_headerless_response_refuted :
-  exists parse_fl parse_hd cs1 cs2,
-    Forall nonempty cs1 /\ Forall nonempty cs2 /\ concat cs1 = concat cs2 /\
-    run true parse_fl parse_hd (PFirst []) cs1 <> run true parse_fl parse_hd (PFirst []) cs2.
-Proof. exact headerless_response_refuted. Qed.
-Print Assumptions C13_headerless_response_refuted.
+(* client, response delimited by the end of the connection (no Content-Length, not chunked; any status; header
+   fields or none; excluded only: 204 without fields, which is complete by itself), after any keep-alive sequence
+   of complete responses: in EVERY segmentation one event per complete response, no event for the last one, and
+   the same parser state holding the body bytes received so far.  (The client components never tell the parser
+   that the connection ended, so such a response is never delivered — in any segmentation.) *)
+Theorem C13_client_until_close : forall parse_fl parse_hd ms css L HS blk i204 hl B cs,
+  Forall (wf_message true parse_fl parse_hd) ms ->
+  Forall2 (fun m cs => Forall nonempty cs /\ concat cs = message_bytes m) ms css ->
+  wf_head parse_fl parse_hd L HS blk i204 None false hl -> hl && i204 = false ->
+  (Z.of_nat (length B) < maxsize)%Z ->
+  Forall nonempty cs -> concat cs = msg_bytes L HS B ->
+  conn_run true parse_fl parse_hd cli_emit (PFirst []) (concat css ++ cs)
+  = (PBody L blk None (Some (maxsize - Z.of_nat (length B))%Z) B, map message_event ms).
+Proof. exact client_until_close. Qed.
+Print Assumptions C13_client_until_close.
 
-(* ---- non-vacuity (data and computations in Proofs/HttpFramingP.v): a concrete well-formed chunked request
-   "POST / HTTP/1.1 | Host: x | TE: c | 3;x CRLF a CR LF CRLF 01 CRLF b CRLF 0 CRLF T:v CRLF CRLF" ---- *)
-Example C13_ex_wf_head : wf_head ex_fl ex_hd ex_L ex_H false None true.
+(* 204 / 304 (any status) without Content-Length and without body: the case B = [] *)
+Theorem C13_client_nobody : forall parse_fl parse_hd ms css L HS blk i204 hl cs,
+  Forall (wf_message true parse_fl parse_hd) ms ->
+  Forall2 (fun m cs => Forall nonempty cs /\ concat cs = message_bytes m) ms css ->
+  wf_head parse_fl parse_hd L HS blk i204 None false hl -> hl && i204 = false ->
+  Forall nonempty cs -> concat cs = msg_bytes L HS [] ->
+  conn_run true parse_fl parse_hd cli_emit (PFirst []) (concat css ++ cs)
+  = (PBody L blk None (Some maxsize) [], map message_event ms).
+Proof. exact client_nobody. Qed.
+Print Assumptions C13_client_nobody.
+
+(* ---- non-vacuity (data in Proofs/HttpFramingP.v): a chunked request
+   "POST / HTTP/1.1 | Host: x | X-F: a | SP b (continuation) | TE: c || 3;x CRLF a CR LF CRLF 01 CRLF b CRLF 0 CRLF T:v CRLF CRLF" *)
+Example C13_ex_wf_head : wf_head ex_fl ex_hd ex_L (ex_H ++ CRLF2) ex_H false None true false.
 Proof. exact ex_wf_head. Qed.
-Example C13_ex_wf_body : wf_body false None true ex_B [97;13;10;98].
+Example C13_ex_wf_body : wf_body false false false None true ex_B [97;13;10;98].
 Proof. exact ex_wf_body. Qed.
 (* byte-at-a-time delivery of that request, computed *)
 Example C13_ex_bytewise :
-  run false ex_fl ex_hd (PFirst []) (map (fun b => [b]) (msg_bytes ex_L ex_H ex_B)) = PDone ex_L ex_H [97;13;10;98].
+  run false ex_fl ex_hd (PFirst []) (map (fun b => [b]) (msg_bytes ex_L (ex_H ++ CRLF2) ex_B)) = PDone ex_L ex_H [97;13;10;98].
+Proof. vm_compute. reflexivity. Qed.
+(* a message without header fields satisfies wf_head (request: kind = false; 204 response: kind = true) *)
+Example C13_ex_wf_head_empty : forall kind, wf_head (fun _ => Some kind) (fun _ => None) [71] CRLF [] kind None false true.
+Proof. exact ex_wf_head_empty. Qed.
+(* a response without header fields and with a body, cut after the empty line vs delivered whole (the former
+   finding C13-headerless-response): same state *)
+Example C13_ex_headerless_response :
+  run true (fun _ => Some false) (fun _ => None) (PFirst []) [[72;13;10;13;10]; [104;105]]
+  = run true (fun _ => Some false) (fun _ => None) (PFirst []) [[72;13;10;13;10;104;105]].
 Proof. vm_compute. reflexivity. Qed.
 (* a Content-Length response cut between CR and LF of the status line and inside the body *)
 Example C13_ex_cl :
